@@ -72,7 +72,7 @@ class PyFileSearcher(AbstractSearcher):
             except IOError:
                 raise error.PySmiSearcherError('failure opening compiled file %s: %s' % (f, sys.exc_info()[1]),
                                                searcher=self)
-            if pyData[:4] == PY_MAGIC_NUMBER:
+            if pyData[:4] == PY_MAGIC_NUMBER and len(pyData) >= 12:
                 pyData = pyData[4:]
                 if sys.version_info[:2] >= (3, 7):
                     # PEP 552: a flags word precedes the source mtime
